@@ -16,7 +16,7 @@ RULE = (
     "entry with the published product evaluated in exact rational arithmetic (eta_i / lambda_i taken from the library's "
     "own estimator or bet); plus, for every betting configuration and node, the ALPHA form driven by "
     "eta_i = mu_i(1+lambda_i(u-mu_i)) must reproduce the betting history; plus the two conversion functions on a "
-    "(lambda, mu, u) lattice. Non-trivial = node with at least one compared entry strictly between 0 and 1; distinct = "
+    "(lambda, mu, u) lattice; plus ALPHA with eta = u against betting with lambda = eta_to_lam(u, t) for t = 1/100..99/100 (IID, every 0/u sample of length <= 3). Non-trivial = node with at least one compared entry strictly between 0 and 1; distinct = "
     "distinct (configuration, history)"
 )
 ASSUMPTIONS = [
@@ -218,7 +218,40 @@ def conv_judge(case):
     return out
 
 
+def edge_equiv_judge(u, t100, xs):
+    """IID, t = t100/100 (not a binary fraction): ALPHA with the largest alternative eta = u and betting with the bet the
+    library's own eta_to_lam(u, t) converts it to (lambda = 1/t up to rounding) must report the same history"""
+    t = t100 / 100
+    with warnings.catch_warnings():
+        warnings.simplefilter("ignore")
+        try:
+            lam = float(NonnegMean(u=u, t=t).eta_to_lam(u, t))
+            pa, ha = NonnegMean(test=NonnegMean.alpha_mart, u=u, N=np.inf, t=t, eta=u).test(np.array(xs, dtype=float))
+            pb, hb = NonnegMean(test=NonnegMean.betting_mart, bet=NonnegMean.fixed_bet, u=u, N=np.inf, t=t, lam=lam).test(np.array(xs, dtype=float))
+        except Exception as e:  # noqa
+            return [(f"C12|edge-equivalence|exception|{type(e).__name__}", f"{type(e).__name__}: {str(e)[:80]}")]
+    for j, (a, b) in enumerate(zip(np.asarray(ha, dtype=float), np.asarray(hb, dtype=float))):
+        if a != a and b != b:
+            continue
+        if not s1.feq(float(a), float(b), rel=REL, abs_=1e-300):
+            return [("C12|betting_mart+fixed_bet|alpha-vs-betting|eta=u", f"u={u}, t={t100}/100, eta = u, lambda = eta_to_lam(u,t) = {lam!r}, sample {xs}: ALPHA history[{j}] = {a}, "
+                     f"betting history[{j}] = {b}")]
+    return []
+
+
 def run_conv(_, rec):
+    for u in (0.7, 1, 2):
+        for t100 in range(1, 100):
+            if t100 / 100 >= u:
+                continue
+            rec.state()
+            for n in (1, 2, 3):
+                for xs in itertools.product((0.0, float(u)), repeat=n):
+                    rec.trans()
+                    rec.evals(2)
+                    rec.vac("edge_equivalence_cases")
+                    for key, what in edge_equiv_judge(u, t100, list(xs)):
+                        rec.violate(key, what, {"kind": "edge", "u": u, "t100": t100, "xs": list(xs)})
     for case in conv_cases():
         rec.state()
         rec.trans()
@@ -240,6 +273,8 @@ def explore(tier, seed):
 
 
 def run_case(case):
+    if case["kind"] == "edge":
+        return edge_equiv_judge(case["u"], case["t100"], case["xs"])
     if case["kind"] == "conv":
         return conv_judge(tuple(case["case"]))
     cfg, idx = case["cfg"], tuple(case["idx"])
